@@ -295,4 +295,55 @@ example : rets .lazy 2
 /-- the client discipline is enforced: a thread cannot free an object it does not hold -/
 example : rets .vyukov 2 [(0, alloc), (0, .step), (0, .ret), (1, free 1)] = none := by decide +kernel
 
+/-! ### An `allocate` racing with a `deallocate`, and `C24_machine_refines_spec` on that run -/
+
+/-- bounded pool of capacity 1.  Thread 0 allocates the only object o1; then thread 1 calls `allocate` and thread 0 calls
+    `deallocate( o1 )`: both operations are pending, their queue steps can be taken in either order. -/
+private def racePrefix : List (Tid × Act) := [(0, alloc), (0, .step), (0, .ret), (1, alloc), (0, free 1)]
+
+/-- `push` first: the racing `allocate` gets o1 back.  `pop` first: it fails (`std::bad_alloc`), o1 becomes available
+    only afterwards. -/
+example : rets .bounded 1 (racePrefix ++ [(0, .step), (1, .step), (0, .ret), (1, .ret)])
+      = some [(0, [1, 1]), (0, [2, 1]), (1, [1, 1])] ∧
+    rets .bounded 1 (racePrefix ++ [(1, .step), (0, .step), (0, .ret), (1, .ret)])
+      = some [(0, [1, 1]), (0, [2, 1]), (1, [0])] := by decide +kernel
+
+set_option synthInstance.maxSize 4000 in
+/-- The state after thread 0's `push` (free queue [o1]) and the `pop` step of thread 1 from it: the step completes the
+    `allocate` with result `[1, 1]` and empties the queue; `Spec.pool` (kind code 2 = bounded, capacity 1) takes the same
+    step. -/
+example : ((model.run (init .bounded 1) (racePrefix ++ [(0, .step)])).bind
+      (fun r => (step r.1 1).map (fun p => (kindCode r.1.kind, r.1.cap, absQ r.1, p.1.pc 1, absQ p.1, p.2)))) =
+      some (2, 1, [1], .done [1, 1], [], ⟨"pop", "queue", "o1", "1"⟩) ∧
+    poolNext 2 1 [1] ⟨"alloc", []⟩ [1, 1] = some [] := by decide +kernel
+
+/-- `C24_machine_refines_spec` applied to that state and that step: the run and the step exist, no hypothesis is left. -/
+example : ∃ s os s' e, model.run (init .bounded 1) (racePrefix ++ [(0, .step)]) = some (s, os) ∧
+    step s 1 = some (s', e) ∧
+    (∀ r, s'.pc 1 = .done r → poolNext (kindCode s.kind) s.cap (absQ s) ⟨"alloc", []⟩ r = some (absQ s')) ∧
+    ((∀ r, s'.pc 1 ≠ .done r) → absQ s' = absQ s) := by
+  have h : ((model.run (init .bounded 1) (racePrefix ++ [(0, .step)])).bind (fun r => step r.1 1)).isSome = true := by
+    decide +kernel
+  obtain ⟨⟨s', e⟩, hb⟩ := Option.isSome_iff_exists.mp h
+  obtain ⟨⟨s, os⟩, hr, hs⟩ := Option.bind_eq_some_iff.mp hb
+  exact ⟨s, os, s', e, hr, hs, C24_machine_refines_spec .bounded 1 s s' ⟨_, os, hr⟩ 1 e ⟨"alloc", []⟩ hs⟩
+
+/-- The other order: thread 1's `pop` on the empty queue fails (`[0]`) and leaves the queue alone, then thread 0's `push`
+    puts o1 back — both are steps of `Spec.pool`. -/
+example : ∃ s os s' e, model.run (init .bounded 1) (racePrefix ++ [(1, .step)]) = some (s, os) ∧
+    step s 0 = some (s', e) ∧
+    (∀ r, s'.pc 0 = .done r → poolNext (kindCode s.kind) s.cap (absQ s) ⟨"free", [1]⟩ r = some (absQ s')) ∧
+    ((∀ r, s'.pc 0 ≠ .done r) → absQ s' = absQ s) := by
+  have h : ((model.run (init .bounded 1) (racePrefix ++ [(1, .step)])).bind (fun r => step r.1 0)).isSome = true := by
+    decide +kernel
+  obtain ⟨⟨s', e⟩, hb⟩ := Option.isSome_iff_exists.mp h
+  obtain ⟨⟨s, os⟩, hr, hs⟩ := Option.bind_eq_some_iff.mp hb
+  exact ⟨s, os, s', e, hr, hs, C24_machine_refines_spec .bounded 1 s s' ⟨_, os, hr⟩ 0 e ⟨"free", [1]⟩ hs⟩
+
+set_option synthInstance.maxSize 4000 in
+example : ((model.run (init .bounded 1) (racePrefix ++ [(1, .step)])).bind
+      (fun r => (step r.1 0).map (fun p => (absQ r.1, r.1.pc 1, p.1.pc 0, absQ p.1, p.2)))) =
+      some ([], .done [0], .done [2, 1], [1], ⟨"push", "queue", "o1", "1"⟩) ∧
+    poolNext 2 1 [] ⟨"free", [1]⟩ [2, 1] = some [1] := by decide +kernel
+
 end CdsVerif.Props.C24Pool
